@@ -288,7 +288,22 @@ class Module:
         f = Func(name, rty, params)
         f.attrs = ln[k + 1:]
         cur = None
+        body_lines = []
+        pending = None
         for l in self.lines[a + 1:b]:
+            if pending is not None:          # multi-line switch: join up to the closing bracket
+                pending += ' ' + l.strip()
+                if l.strip().startswith(']'):
+                    body_lines.append(pending); pending = None
+                continue
+            if l.lstrip().startswith('switch ') and l.rstrip().endswith('['):
+                pending = l.rstrip()
+                continue
+            if l.lstrip().startswith('to label ') and body_lines:      # second line of an invoke
+                body_lines[-1] = body_lines[-1].rstrip() + ' ' + l.strip()
+                continue
+            body_lines.append(l)
+        for l in body_lines:
             if not l or l.startswith(';'):
                 continue
             if l[0] != ' ':
@@ -504,6 +519,17 @@ def _parse_call(op, dst, rest, text):
     rty, r2 = take_type(rest)
     # callee: @name, %reg, or constant expr (bitcast ...)
     r2 = r2.lstrip()
+    if r2.startswith('('):                 # full function type of a varargs callee: 'i32 (i8*, ...) @printf(...)'
+        depth, k = 0, 0
+        while True:
+            if r2[k] == '(':
+                depth += 1
+            elif r2[k] == ')':
+                depth -= 1
+                if depth == 0:
+                    break
+            k += 1
+        r2 = r2[k + 1:].lstrip()
     if r2.startswith('@') or r2.startswith('%'):
         k = r2.index('(')
         callee = r2[:k].strip().replace('"', '')
